@@ -125,5 +125,6 @@ pub fn check(cx: &Cx, rep: &mut Report) {
             }
         }
     }
+    super::submission_starvation("C13", cx, rep);
     rep.nontrivial = nontrivial;
 }
